@@ -178,7 +178,8 @@ def main(tier):
         run.extra["interop_with_mit_gssapi"] = mg
         for x in mbad:
             if x["mitStage"] != 6:
-                raise vlib.Inconclusive("MIT's GSS-API did not establish a context against the simulated KDC (stage %s, rc %s)" % (x["mitStage"], x["mitRC"]))
+                vlib.spec_validation_problem(run, "MIT's GSS-API did not establish a context against the simulated KDC (stage %s, rc %s)" % (x["mitStage"], x["mitRC"]))
+                continue
             run.violation({"interop": "mit-gssapi", "et": x["et"], "msglen": x["msglen"]}, {"line": x})
         if mg.get("available"):
             run.cov["evaluations"] += 8 * mg["contexts"]
